@@ -34,6 +34,60 @@ class Crate:
         # (`.ok_or_else(helper)`), never part of `bodies`
         self.helper_defs = {b['path']: Body(b, self) for b in d.get('helper_defs', [])}
 
+    def const_fields(self):
+        """{field name: variant} for fields of structs of this crate that hold the same field-less enum variant (typically None) in
+        every value ever built: each aggregate of the struct stores that variant there (struct-update copies from another value of the
+        same struct are neutral), and no body assigns to, or mutably borrows, a place ending in a field of that name.  Only field
+        names that occur in exactly one struct of the crate are considered, so a projection `.name` identifies the struct.
+        This is what makes a dormant extension point (`limit: Option<usize>` that is always None today) visible as dead code."""
+        c = getattr(self, '_const_fields', None)
+        if c is not None:
+            return c
+        owners = defaultdict(set)
+        for path, ad in self.adts.items():
+            if ad.get('kind') == 'struct':
+                for f in ad['variants'][0]['fields']:
+                    owners[f['n']].add(path)
+        cand = {n: list(ps)[0] for n, ps in owners.items() if len(ps) == 1 and not str(n).isdigit()}
+        seen = defaultdict(set)
+        dirty = set()
+        for b in self.bodies:
+            if b.kind == 'promoted':
+                continue
+            for blk in b.blocks:
+                for st in blk['stmts']:
+                    if not isinstance(st, dict) or 'p' not in st:
+                        continue
+                    pf = place_fields(st['p'])
+                    if pf and pf[-1] in cand:
+                        dirty.add(pf[-1])
+                    rv = st.get('rv') or {}
+                    if 'ref' in rv and rv.get('mut'):
+                        rf = place_fields(rv['ref'])
+                        if rf and rf[-1] in cand:
+                            dirty.add(rf[-1])
+                    ag = rv.get('agg') if isinstance(rv, dict) else None
+                    if isinstance(ag, dict) and ag.get('kind') == 'adt' and ag.get('fields'):
+                        for fn_, op_ in zip(ag['fields'], rv.get('ops', [])):
+                            if cand.get(fn_) != ag.get('adt'):
+                                continue
+                            src = op_.get('cp') or op_.get('mv')
+                            val = None
+                            if src is not None:
+                                if place_fields(src)[-1:] == [fn_]:
+                                    continue   # ..base: copied from another value of the same struct
+                                if not src.get('pr'):
+                                    ds = b.defs().get(src['l'], [])
+                                    if len(ds) == 1 and ds[0][0] == 'stmt' and isinstance(ds[0][3].get('agg'), dict) and ds[0][3]['agg'].get('variant') and not ds[0][3].get('ops'):
+                                        val = ds[0][3]['agg']['variant']
+                            seen[fn_].add(val)
+                t = blk['term']
+                if t['k'] == 'call':
+                    for a in t.get('args', []):
+                        pass
+        c = self._const_fields = {n: list(vs)[0] for n, vs in seen.items() if n not in dirty and len(vs) == 1 and list(vs)[0] is not None}
+        return c
+
     def find(self, pat, kind=None):
         """bodies whose path equals pat, or ends with '::'+pat, or (if pat is a regex object) matches"""
         out = []
@@ -169,10 +223,16 @@ def alias_renamed(dd, known, ksigs):
     left_m = [m for m in missing if m not in ren.values() and len(kfp.get(m, [])) >= 4]
     left_n = {n: fingerprint(cur[n]) for n in new if n not in ren}
     pairs = []
+    # how many functions called the vanished one then / call the new one now: a new function with clearly more callers is a
+    # shared helper that absorbed the old one's body (it is spliced into its callers instead of being taken for a rename)
+    n_callers_then = lambda m_: len([1 for fp_ in kfp.values() if ('c:' + m_.rsplit('::', 1)[-1]) in fp_])
+    n_callers_now = lambda n_: len([1 for b_ in cur.values() if ('c:' + n_.rsplit('::', 1)[-1]) in fingerprint(b_)])
     for m in left_m:
         fm = set(kfp[m])
         scored = sorted(((len(fm & fn_) / float(len(fm | fn_) or 1), n) for n, fn_ in left_n.items()), reverse=True)
         if scored and scored[0][0] >= 0.6 and (len(scored) == 1 or scored[0][0] - scored[1][0] >= 0.15):
+            if n_callers_now(scored[0][1]) > n_callers_then(m) + 1:
+                continue
             pairs.append((scored[0][0], m, scored[0][1]))
     used_n = {}
     # one new function that is the best match of several vanished ones took over all their jobs (a merge, e.g. four per-kind
@@ -452,6 +512,9 @@ class Body:
         if k == 'goto':
             return [t['t']]
         if k == 'switch':
+            only = self._const_field_switch(bb)
+            if only is not None:
+                return [only]
             r = []
             for v, tb in t['arms']:
                 if tb not in r:
@@ -464,6 +527,39 @@ class Body:
         if k == 'yield':
             return [t['t']]  # the drop edge is the cancellation path, treated like unwind
         return []
+
+    def _const_field_switch(self, bb):
+        """the one successor of a switch on the discriminant of a struct field that holds the same variant in every value the crate ever
+        builds (Crate.const_fields: a dormant `Option` extension point that is always None), else None"""
+        if self.crate is None or self.kind == 'promoted':
+            return None
+        cf = self.crate.const_fields()
+        if not cf:
+            return None
+        t = self.blocks[bb]['term']
+        pl = t['on'].get('cp') or t['on'].get('mv')
+        if pl is None or pl.get('pr'):
+            return None
+        ds = []
+        for b2, blk in enumerate(self.blocks):
+            for st in blk['stmts']:
+                if isinstance(st, dict) and st.get('p') and not st['p'].get('pr') and st['p']['l'] == pl['l']:
+                    ds.append(st)
+        if len(ds) != 1 or 'discr' not in (ds[0].get('rv') or {}):
+            return None
+        src = ds[0]['rv']['discr']
+        if not (src.get('pr') and isinstance(src['pr'][-1], dict) and 'f' in src['pr'][-1]):
+            return None
+        var = cf.get(place_fields(src)[-1])
+        if var is None:
+            return None
+        val = [v for v, n in ds[0]['rv'].get('variants', []) if n == var]
+        if len(val) != 1:
+            return None
+        for v, tb in t['arms']:
+            if v == val[0]:
+                return tb
+        return t['else']
 
     def preds(self, bb):
         if self._pred is None:
@@ -1146,6 +1242,10 @@ class Body:
                     new = know.get(src['l'])
                 elif src is not None:
                     new = self._proj_know(know.get(src['l']), src['pr'])
+                    if new is None:
+                        cf_ = self.crate.const_fields().get((place_fields(src) or [None])[-1]) if self.crate is not None and isinstance(src['pr'][-1], dict) and 'f' in src['pr'][-1] else None
+                        if cf_:
+                            new = ('v', cf_, None)
                 elif 'k' in op:
                     v = op['k'].get('v')
                     if isinstance(v, bool):
@@ -1155,6 +1255,10 @@ class Body:
             elif 'discr' in rv:
                 src = rv['discr']
                 k = know.get(src['l']) if not src.get('pr') else self._proj_know(know.get(src['l']), src['pr'])
+                if k is None and src.get('pr') and isinstance(src['pr'][-1], dict) and 'f' in src['pr'][-1] and self.crate is not None:
+                    cf_ = self.crate.const_fields().get(place_fields(src)[-1])
+                    if cf_:
+                        k = ('v', cf_, None)
                 if k and k[0] == 'v':
                     for val, name in rv.get('variants', []):
                         if name == k[1]:
